@@ -100,13 +100,15 @@ Definition sem_cases (before after : func) : list N :=
   map (fun j => sem_case 100 before after (arg_vector (length (f_params before)) j)) (seq 0 6).
 
 (* ---- one tie case ---- *)
-Inductive pass := PDce | PCcp | PLvn | PPipe.      (* PPipe: optimize_function_for_rounds with only lvn switched on *)
+Inductive pass := PDce | PCcp | PLvn | PCse | PPipe.      (* PPipe: optimize_function_for_rounds with only lvn switched on *)
 
-Definition model (p : pass) (f : func) : option (func * fl) :=
+(* sup: the fresh names the real pass made, in the order in which it allocated them (used by PCse only) *)
+Definition model (p : pass) (sup : list name) (f : func) : option (func * fl) :=
   match p with
   | PDce => Some (dce f, fl0)
   | PCcp => ccp f
   | PLvn => Some (lvn f, fl0)
+  | PCse => match cse sup f with Some f' => Some (f', fl0) | None => None end
   | PPipe => pipeline true f
   end.
 
@@ -115,12 +117,12 @@ Definition model (p : pass) (f : func) : option (func * fl) :=
    status 0: model output = real output; 1: they differ; 2: the model gives no output *)
 Definition b2n (b : bool) : N := if b then 1%N else 0%N.
 Definition count (k : N) (l : list N) : N := N.of_nat (length (filter (N.eqb k) l)).
-Definition tie_case (p : pass) (before after : func) : list N :=
+Definition tie_case (p : pass) (sup : list name) (before after : func) : list N :=
   let wf := b2n (wf_func before) in
   let sc := sem_cases before after in
-  match model p before with
+  match model p sup before with
   | Some (m, f) => [(if func_eqb m after then 0 else 1)%N; wf; b2n (fst f); b2n (snd f); count 1 sc; count 2 sc; count 3 sc]
   | None => [2%N; wf; 0%N; 0%N; count 1 sc; count 2 sc; count 3 sc]
   end.
-Definition tie_cases (cs : list (pass * func * func)) : list (list N) :=
-  map (fun c => tie_case (fst (fst c)) (snd (fst c)) (snd c)) cs.
+Definition tie_cases (cs : list (pass * list name * func * func)) : list (list N) :=
+  map (fun c => tie_case (fst (fst (fst c))) (snd (fst (fst c))) (snd (fst c)) (snd c)) cs.
